@@ -69,6 +69,13 @@ func (node *Node) processUnconfirmedTx(ctx context.Context, tx handlers.TxData) 
 
 	logger.Info(ctx, "Tx is relevant : %s", hash)
 
+	// A block must not be processed while this tx is in the unconfirmed txs but its state is not
+	// saved yet (the outputs it spends can take a network round trip to fetch). A block containing
+	// the tx, or a tx conflicting with it, would fail to fetch that state after the block was already
+	// added to the chain, and the block's txs would never be delivered.
+	node.blockLock.Lock()
+	defer node.blockLock.Unlock()
+
 	// We have to succesfully add to tx repo because it is protected by a lock and will prevent
 	// processing the same tx twice at the same time.
 	added, newlySafe, err := node.txs.Add(ctx, *hash, tx.Trusted, tx.Safe, -1)
